@@ -60,6 +60,20 @@ def gen_case_archive(seed, i):
                                             'replace(2, concat("L", line_number()))']),
                         "ident": "rewriter", "scan": "*", "unmatched": False})
         method = r.choice(["collect_by_line", "next_by_line", "collect_by_line", "collect_paths"])
+    if r.random() < 0.14 and len(recs) >= 3:
+        # a member that ends itself early beside a member that acts on the whole group on a later line (fail_all, stop_all,
+        # skip_all): what is archived for the first must still be what it is in memory when the run is over
+        k1 = r.randint(0, len(recs) - 2)
+        k2 = r.randint(k1 + 1, len(recs) - 1)
+        early = {"match": r.choice([f"yes() line_number() == {k1} -> stop()", f"@c = count() line_number() == {k1} -> stop()",
+                                     f"line_number() == {k1} -> fail_and_stop()"]),
+                 "ident": "early", "scan": "*", "unmatched": False}
+        whole = {"match": r.choice([f"line_number() == {k2} -> fail_all()", f"yes() line_number() == {k2} -> fail_all()",
+                                     f"line_number() == {k2} -> stop_all()", f"line_number() == {k2} -> skip_all()"]),
+                 "ident": "whole", "scan": "*", "unmatched": False}
+        members = [m for m in members if m["ident"] not in ("early", "whole")][:1]
+        members = r.choice([[early, whole] + members, [whole, early] + members, members + [early, whole]])
+        method = r.choice(["collect_by_line", "next_by_line", "fast_forward_by_line", "collect_by_line", "collect_paths"])
     if r.random() < 0.1:
         # a member that never starts (run-mode: no-run), in a serial run: it still gets its directory, files and a truthful manifest
         members[r.randrange(len(members))]["norun"] = True
@@ -218,7 +232,8 @@ def case_archive(case):
         return res
     # what "the lines collected" are, independently of the archive: the same member run alone (members here have no cross-path
     # signals; judged only when the lone run is free of errors, whose handling differs between a CsvPath and a CsvPaths)
-    if collects and not any("collect(" in mem["match"] for mem in case["members"]):
+    if collects and not any("collect(" in mem["match"] or "_all()" in mem["match"] for mem in case["members"]):
+        # (stop_all/skip_all/fail_all are cross-path signals: a member beside them does not run as it would alone)
         # (the collect() function narrows lines; in a breadth-first run one member's narrowing reaches the members after it, which
         # C08 excludes as "line-rewriting functions")
         import real_run
